@@ -371,7 +371,9 @@ def ss_items(tier):
         items.append(("ss", 4, es, (0, 1, 2), placement))
   else:
     for es in c07.edge_sets(4, False):
-      for va in ((0, 1, 2), (0, 0, 1), (0, 1, 0), (0, 1, 1)):
+      if len(es) < 4:
+        continue
+      for va in ((0, 1, 2), (0, 0, 1)):
         for placement in itertools.product(range(4), repeat=3):
           items.append(("ss", 4, es, va, placement))
   return items
